@@ -73,6 +73,10 @@ def plan_c08(pid, rng, quick):
         plan.append(st)
     # more parents than a 16-bit id can number
     sizes = [65535, 65536, 65537] if quick else [65534, 65535, 65536, 65537, 70000, 131073]
+    for n_ in ([65536, 65537, 80000] if quick else [65536, 65537, 70000, 80000, 131073, 196609]):
+        plan.append({"id": "parents/traces/mixed/%d" % n_, "signal": "traces", "opts": {},
+                     "batches": [{"gen": "parents", "n": n_, "nres": 1, "with": "mixed", "nodump": True}, otap.rand_batch(rng, rich=1)],
+                     "props": [], "mode": 2, "nowire": True, "nodecode": True})
     kinds = [("traces", "spanattr", 1), ("traces", "event", 1), ("traces", "link", 1), ("traces", "resattr", 0),
              ("traces", "plain", 1), ("logs", "logattr", 1), ("logs", "resattr", 0), ("logs", "plain", 1),
              ("metrics", "dpattr", 1), ("metrics", "resattr", 0), ("metrics", "plain", 1)]
